@@ -34,6 +34,8 @@ type c17Handler struct {
 	lastTag  int // tag of the last delivered message
 	lastH    uint64
 	anyDeliv bool
+	// the handler may move the node to a later view of the same height while it handles a message
+	viewMoves bool
 }
 
 func (h *c17Handler) HandleConsensusMessage(message interfaces.ConsensusMessage) error {
@@ -55,6 +57,10 @@ func (h *c17Handler) HandleConsensusMessage(message interfaces.ConsensusMessage)
 	}
 	m.delivered = true
 	h.lastTag, h.lastH, h.anyDeliv = tag, cur, true
+	if h.viewMoves && env.NondetBool("handler_moves_to_next_view") {
+		// as a real term does on a NEW_VIEW or an electing VIEW_CHANGE: a later view of the SAME height
+		h.st.SetView(h.st.View() + 1)
+	}
 	return nil
 }
 
@@ -69,7 +75,7 @@ func C17_Filter() {
 	env.Assume(h0 >= 1)
 	st.SetHeightAndResetView(primitives.BlockHeight(h0))
 	f := rawmessagesfilter.NewConsensusMessageFilter(instance, me, stub.NopLogger{}, st)
-	rec := &c17Handler{st: st}
+	rec := &c17Handler{st: st, viewMoves: env.ParamOr("viewmoves", 0) == 1}
 	f.ConsumeCacheMessages(rec)
 	reg := stub.NewRegistry()
 	higherCached := uint64(0) // max height of any message accepted for caching so far (0 = none)
